@@ -78,6 +78,11 @@ type Rec struct {
 	LNF     bool  `json:"lnf,omitempty"` // the loader answered ErrNotFound
 	Err     int   `json:"err,omitempty"` // 0 none 1 error 2 notfound 3 panic
 	N       int   `json:"n,omitempty"`
+	// trials with a manual clock: its value read before the call / after the return / at loader entry and exit
+	ClkLo     int64 `json:"clk_lo,omitempty"`
+	ClkHi     int64 `json:"clk_hi,omitempty"`
+	LClkEnter int64 `json:"lclk_enter,omitempty"`
+	LClkExit  int64 `json:"lclk_exit,omitempty"`
 }
 
 // Ev is one deletion handler invocation.
@@ -88,6 +93,7 @@ type Ev struct {
 	Cause  int   `json:"cause"`
 	T      int64 `json:"t"`
 	Seq    int64 `json:"seq"`
+	Clk    int64 `json:"clk,omitempty"` // manual clock read at handler entry
 }
 
 const (
@@ -117,6 +123,8 @@ type TrialCfg struct {
 	MaxChoices []uint64 `json:"max_choices,omitempty"`
 	Procs      int      `json:"procs,omitempty"`
 	ExpiryTTL  int64    `json:"expiry_ttl,omitempty"` // > 0: write-reset expiry with this ttl and a manual clock moved by the workers
+	ExpAccess  bool     `json:"exp_access,omitempty"` // the expiry policy is access-reset (reads extend the deadline)
+	LinExp     bool     `json:"lin_exp,omitempty"`    // judged by the map-with-deadlines linearizability model
 }
 
 // Trial is a running / finished trial.
@@ -314,9 +322,13 @@ func NewTrial(cfg TrialCfg) (*Trial, error) {
 	record := func(atomicEv bool) func(e otter.DeletionEvent[int, int]) {
 		return func(e otter.DeletionEvent[int, int]) {
 			ts := t.now()
+			var clk int64
+			if t.Clock != nil {
+				clk = t.Clock.now.Load()
+			}
 			i := t.evIdx.Add(1) - 1
 			if int(i) < len(t.evs) {
-				t.evs[i] = Ev{Atomic: atomicEv, Key: e.Key, Val: e.Value, Cause: int(e.Cause), T: ts, Seq: i}
+				t.evs[i] = Ev{Atomic: atomicEv, Key: e.Key, Val: e.Value, Cause: int(e.Cause), T: ts, Seq: i, Clk: clk}
 			}
 		}
 	}
@@ -354,6 +366,9 @@ func NewTrial(cfg TrialCfg) (*Trial, error) {
 		t.Clock.now.Store(1_000_000_000)
 		o.Clock = t.Clock
 		o.ExpiryCalculator = otter.ExpiryWriting[int, int](time.Duration(cfg.ExpiryTTL))
+		if cfg.ExpAccess {
+			o.ExpiryCalculator = otter.ExpiryAccessing[int, int](time.Duration(cfg.ExpiryTTL))
+		}
 	}
 	c, err := otter.New(o)
 	if err != nil {
@@ -380,6 +395,9 @@ func (t *Trial) Events() []Ev {
 // loader is a LoaderFunc bound to one call record.
 func (t *Trial) loader(r *Rec) otter.LoaderFunc[int, int] {
 	return func(ctx context.Context, key int) (int, error) {
+		if t.Clock != nil {
+			r.LClkEnter = t.Clock.now.Load()
+		}
 		r.LEnter = t.now()
 		t.loads.Add(1)
 		v := int(9_000_000_000 + t.loaderV.Add(1))
@@ -391,6 +409,9 @@ func (t *Trial) loader(r *Rec) otter.LoaderFunc[int, int] {
 			runtime.Gosched()
 		}
 		r.LExit = t.now()
+		if t.Clock != nil {
+			r.LClkExit = t.Clock.now.Load()
+		}
 		if nf {
 			// "not in the data source": nothing is stored, and a write that landed meanwhile stays
 			r.LNF = true
@@ -414,6 +435,9 @@ func (t *Trial) worker(w int, rng *core.Rng, out *[]Rec) {
 	for i := 0; i < cfg.Ops && !t.stalled.Load(); i++ {
 		kind := rng.Pick(cfg.Mix)
 		r := Rec{W: w, Kind: kind, Key: rng.Intn(cfg.Keys)}
+		if t.Clock != nil {
+			r.ClkLo = t.Clock.now.Load()
+		}
 		switch kind {
 		case KSet:
 			r.Arg = newVal()
@@ -572,6 +596,9 @@ func (t *Trial) worker(w int, rng *core.Rng, out *[]Rec) {
 				}
 				t.Clock.now.Add(step)
 			}
+		}
+		if t.Clock != nil {
+			r.ClkHi = t.Clock.now.Load()
 		}
 		recs = append(recs, r)
 		progress.Add(1)
